@@ -192,6 +192,15 @@ theorem or_first_true (pre post : List Value) (h : ∀ v ∈ pre, v = .bool fals
 
 theorem aggregates_empty : allBool [] = .ok true ∧ anyBool [] = .ok false := ⟨rfl, rfl⟩
 
+/-! ## The `+` and `*` handlers are commutative on *values*: same number, or the same error -/
+theorem plus_comm_numbers (a b : Dec) : builtinInfix ['+'] (.num a) (.num b) = builtinInfix ['+'] (.num b) (.num a) := by
+  rw [arith ['+'] (by decide), arith ['+'] (by decide), (arith_ops a b).1, (arith_ops b a).1, EE.Props.C09.add_comm]
+theorem times_comm_numbers (a b : Dec) : builtinInfix ['*'] (.num a) (.num b) = builtinInfix ['*'] (.num b) (.num a) := by
+  rw [arith ['*'] (by decide), arith ['*'] (by decide), (arith_ops a b).2.2.1, (arith_ops b a).2.2.1, EE.Props.C09.mul_comm]
+/-- `a - b` is `a + (-b)` at the handler level. -/
+theorem minus_is_plus_neg (a b : Dec) : builtinInfix ['-'] (.num a) (.num b) = builtinInfix ['+'] (.num a) (.num (Dec.neg' b)) := by
+  rw [arith ['-'] (by decide), arith ['+'] (by decide), (arith_ops a b).2.1, (arith_ops a (Dec.neg' b)).1, EE.Props.C09.sub_eq_add_neg]
+
 /-! ## Wrong operand type: an error, never a coerced value -/
 theorem illtyped_arith (op : Name) (h : op ∈ decNames) (v w : Value) (hv : (∀ d, v ≠ .num d) ∨ (∀ d, w ≠ .num d)) :
     (builtinInfix op v w).isErr = true := by
